@@ -76,4 +76,12 @@ theorem C01_gen_multicallResponsesUntouched : Generated.multicallResponsesUntouc
 /-- … and the jobs draw their ids as single requests do (`jobRequest`: `rpcid` absent). -/
 theorem C01_gen_multicallJobIds : Generated.multicallJobIds = some jobIds := by decide
 
+/-- METHOD NAMES ARE OPAQUE to the server: `validate_request`, `_marshaled_single_dispatch` and `_dispatch` look at the
+    method name only through its truth value and type (`Server.validate`: non-empty `str`), as key of `self.funcs`
+    (`reg.funcs.lookup m`) and as the argument of `resolve_dotted_attribute` (`resolveDotted`; that function is CPython's
+    `xmlrpc.server.resolve_dotted_attribute`, facts `dottedAllowed` / `methodUnmodified` of C05) — the list of other inspections of its content (prefix tests such as
+    `method.startswith("rpc.")`, comparisons, slicing, pattern matching) is empty.  This is what lets the theorems
+    quantify over `dottedName path ≠ ""` with no further condition on the name (`C01_request`, `C01_single`, …). -/
+theorem C01_gen_methodNameInspections : Generated.methodNameInspections = some [] := by decide
+
 end JRV.Props
